@@ -30,6 +30,7 @@ class Controller:
         self.errors = []
         self.counts = collections.Counter()
         self.threads = {}
+        self.registered = set()
         self.active = True
 
     # ---- called from managed threads
@@ -53,6 +54,7 @@ class Controller:
     def register_current(self, name):
         with self.cv:
             self.names[threading.get_ident()] = name
+            self.registered.add(name)
             if name not in self.started:
                 self.started.append(name)
             self.cv.notify_all()
@@ -92,8 +94,40 @@ class Controller:
     def _settled(self, name):
         return name in self.waiting or name in self.finished
 
-    def grant(self, name, timeout=20.0):
-        """Release `name` through its gate and wait until it reaches the next gate or finishes."""
+    @staticmethod
+    def kind(label):
+        parts = [p for p in label.split(" | ")[0].split("; ") if not p.startswith("(local) ") and not p.startswith("uncaught")]
+        label = parts[0] if parts else label.replace("(local) ", "").split("; ")[0]
+        w0 = label.split(" ")[0]
+        if w0 in ("read", "write"):
+            return w0 + " " + label.rsplit(".", 1)[-1]
+        if w0 in ("start", "join", "inspect", "is_done", "is_alive"):
+            return w0
+        k = label.rsplit(".", 1)[-1]
+        return {"__enter__": "acquire", "__exit__": "release"}.get(k, k)
+
+    def grant(self, name, timeout=20.0, expect=None):
+        """Release `name` through its gate and wait until it reaches the next gate or finishes. Operations on
+        events/locks that the model found to be thread-private are not schedule steps: they are passed through."""
+        for _ in range(50):
+            with self.cv:
+                end = time.time() + timeout
+                while name not in self.waiting and name not in self.finished:
+                    left = end - time.time()
+                    if left <= 0:
+                        break
+                    self.cv.wait(left)
+                cur = self.waiting.get(name)
+            if expect is None or cur is None:
+                break
+            ck = self.kind(cur[0])
+            passable = ck in ("set", "clear", "is_set", "wait", "acquire", "release") or cur[0].startswith("read list")
+            if ck == self.kind(expect) or not passable:
+                break
+            self._grant_one(name, timeout)
+        return self._grant_one(name, timeout)
+
+    def _grant_one(self, name, timeout=20.0):
         with self.cv:
             end = time.time() + timeout
             while name not in self.waiting:
@@ -118,7 +152,7 @@ class Controller:
                 self.cv.wait(min(left, 0.5))
             # threads started by this step must be registered before we go on
             end = time.time() + timeout
-            while any((n not in self.names.values()) for n in self.started):
+            while any((n not in self.registered) for n in self.started):
                 left = end - time.time()
                 if left <= 0:
                     break
@@ -361,6 +395,32 @@ def patch_thread_class(ctrl, cls, restore):
     restore.append(undo)
 
 
+class GatedList(list):
+    """pool.procs in replays: element reads and writes pass a gate (the model treats them as visible operations)."""
+
+    def __init__(self, ctrl, items, name):
+        super().__init__(items)
+        self._c = ctrl
+        self._n = name
+
+    def __getitem__(self, i):
+        if isinstance(i, int):
+            self._c.gate("read %s[%d]" % (self._n, i))
+        return super().__getitem__(i)
+
+    def __setitem__(self, i, v):
+        if isinstance(i, int):
+            self._c.gate("write %s[%d]" % (self._n, i))
+        super().__setitem__(i, v)
+
+    def __iter__(self):
+        i = 0
+        while i < len(self):
+            self._c.gate("read %s[%d]" % (self._n, i))
+            yield super().__getitem__(i)
+            i += 1
+
+
 def gate_attributes(ctrl, obj, attrs, objname):
     """Shared plain attributes (e.g. pool._sending_work): reads and writes pass a gate (dynamic subclass, no repo change)."""
     cls = type(obj)
@@ -397,7 +457,7 @@ def run_replay(make, cfg, schedule, params, expect, faults=None):
         steps = [s for s in schedule if s.get("visible", True)]
         try:
             for s in steps:
-                ctrl.grant(s["thread"])
+                ctrl.grant(s["thread"], expect=s.get("op"))
             phase = ctrl.run_free()
         except Divergence as d:
             out["divergence"] = str(d)
@@ -406,8 +466,13 @@ def run_replay(make, cfg, schedule, params, expect, faults=None):
         out["asserts"] = list(intr.REPLAY["asserts"])
         out["thread_errors"] = list(ctrl.errors)
         out["ops_executed"] = len(ctrl.log)
+        out["monitors"] = dict(intr.REPLAY["mon"])
+        out["finished_threads"] = sorted(ctrl.finished)
         out["log_tail"] = ["%s:%s" % x for x in ctrl.log[-12:]]
-        if expect == "witness":
+        if expect == "prefix":
+            out["reproduced"] = out["divergence"] is None
+            out["observed"] = "schedule prefix executed on the real code without divergence" if out["reproduced"] else out["divergence"]
+        elif expect == "witness":
             out["reproduced"] = phase == "done" and not out["asserts"] and not ctrl.errors
             out["observed"] = "complete run, no assertion violated" if out["reproduced"] else "%s asserts=%s errors=%s" % (phase, out["asserts"], ctrl.errors)
         elif expect == "deadlock":
